@@ -44,13 +44,13 @@ PROPS = {
     "C06": P_(["scheduler", "digraph", "dagproto", "graphbuild"], ["config", "graph_build", "priority_table", "conformance"], dict(SW)),
     "C07": P_(["digraph", "dagproto", "nodeexec", "dagadmin", "graphbuild"], ["priority_table", "config", "graph_build", "differential"]),
     "C08": P_(["scheduler", "dagproto", "dagadmin", "graphbuild"], ["config", "graph_build"], dict(SW)),
-    "C09": P_(["scheduler", "values", "graphbuild"], ["graph_build", "conformance"], dict(SW, fail=True, active=True)),
+    "C09": P_(["scheduler", "values", "graphbuild"], ["graph_build", "failure_recovery", "conformance"], dict(SW, fail=True, active=True)),
     "C10": P_(["scheduler", "values", "graphbuild", "nodebuild", "subdag"], ["programs", "reference_matrix"], dict(SW, active=True)),
     "C11": P_(["dagproto", "digraph", "values", "dagadmin", "graphbuild", "nodebuild", "decorators"], ["setup_histories", "build_validation", "graph_build"]),
     "C12": P_(["digraph", "dagproto", "values", "dagadmin", "graphbuild"], ["selection", "graph_build", "conformance", "differential"]),
     "C13": P_(["digraph", "dagproto", "dagadmin", "graphbuild", "nodebuild", "decorators"], ["selection_debug", "build_validation", "graph_build", "conformance", "differential"]),
     "C14": P_(["scheduler", "values", "dagproto", "nodeexec"], ["profile"], dict(SW, fail=True)),
-    "C15": P_(["dagproto", "values", "digraph", "dagadmin", "subdag"], ["no_leak", "selection", "compose", "config", "conformance"]),
+    "C15": P_(["dagproto", "values", "digraph", "dagadmin", "subdag"], ["no_leak", "failure_recovery", "selection", "compose", "config", "conformance"]),
     "C16": P_(["threads", "dagproto", "values", "nodebuild", "subdag", "decorators"], ["threads"], claim="other",
               explanation="Mixed: the ownership guards (who may take the description branch, lock discipline of threadsafe_make_dag, frames of the run path) are proved; LazyExecNode.__call__ and real interleavings are covered by the bounded thread stand-in only."),
     "C17": P_(["scheduler", "values", "dagproto"], ["async", "programs_flat"], dict(SW)),
